@@ -16,6 +16,7 @@ EXPLANATION = (
     "joiner's wake-up is not lost (C02), exceptions other than pika::exception leaving the thread function.")
 ASSUMPTIONS = ["at most one task joins a given pika::thread at a time (API contract)",
                "thread::start_thread is only called from constructors (id_ written before the handle is shared)"]
+THOROUGH_CONFIGS = [["-UNDEBUG", "-DPIKA_DEBUG"]]
 FLOORS = {"C13.R1": 4, "C13.R2": 3, "C13.R3": 6, "C13.R4": 7, "C13.R5": 2, "C13.R6": 4}
 
 TD = "pika::threads::detail::thread_data"
